@@ -15,6 +15,7 @@ func init() {
 	verifRegister("verifC04InitialDeadline", verifC04InitialDeadline)
 	verifRegister("verifC04DeadlineRearm", verifC04DeadlineRearm)
 	verifRegister("verifC04FailedIsTerminal", verifC04FailedIsTerminal)
+	verifRegister("verifC04ConfigTimeouts", verifC04ConfigTimeouts)
 	verifRegister("verifC04Tick", verifC04Tick)
 	verifRegister("verifC04Update", verifC04Update)
 	verifRegister("verifC04Restart", verifC04Restart)
@@ -374,5 +375,58 @@ func verifC04FailedIsTerminal() {
 		a.handleInbound(resp, late, remote.addrPort())
 	}
 	verifAssertKnown(a.connectionState == ConnectionStateFailed, "Failed-is-left-only-through-Restart", "C04-failed-agent-keeps-gathering", true)
+	verifReach("done")
+}
+
+// (a”') from the configuration to the thresholds the liveness decision uses:
+// an absent timeout means the default (the lite default for lite agents), an
+// explicit value — zero included, which disables the transition — is taken as
+// given, for full and lite agents alike.
+func verifC04ConfigTimeouts() {
+	lite := verifBool()
+	cfg := &AgentConfig{Lite: lite}
+	dtKind, ftKind := verifChoice(3), verifChoice(3)
+	dt := time.Duration(verifInt(1, int(time.Hour)))
+	ft := time.Duration(verifInt(1, int(time.Hour)))
+	zero := time.Duration(0)
+	switch dtKind {
+	case 1:
+		cfg.DisconnectedTimeout = &zero
+	case 2:
+		cfg.DisconnectedTimeout = &dt
+	}
+	switch ftKind {
+	case 1:
+		cfg.FailedTimeout = &zero
+	case 2:
+		cfg.FailedTimeout = &ft
+	}
+	a := &Agent{lite: lite}
+	cfg.initWithDefaults(a)
+	a.applyICELiteDisconnectedTimeoutDefault()
+	wantDT := time.Duration(verifIteU64(lite, uint64(defaultLiteDisconnectedTimeout), uint64(defaultDisconnectedTimeout)))
+	switch dtKind {
+	case 1:
+		wantDT = 0
+		verifReach("disconnected-disabled")
+	case 2:
+		wantDT = dt
+	}
+	wantFT := defaultFailedTimeout
+	switch ftKind {
+	case 1:
+		wantFT = 0
+	case 2:
+		wantFT = ft
+	}
+	verifAssert(a.disconnectedTimeout == wantDT, "disconnected-timeout=configured-value(zero-disables,also-for-lite)-or-the-default")
+	verifAssert(a.failedTimeout == wantFT, "failed-timeout=configured-value-or-the-default")
+	// and the decision function sees exactly these thresholds
+	silence := time.Duration(verifInt(0, int(3*time.Hour)))
+	cur := ConnectionStateConnected
+	total := time.Duration(verifIteU64(a.failedTimeout == 0, 0, uint64(a.disconnectedTimeout+a.failedTimeout)))
+	a.connectionState = cur
+	got := a.connectionStateForDisconnection(silence, total)
+	verifAssert(got == verifOracleLiveness(wantDT, wantFT, silence, cur), "state=f(silence,configured-thresholds)")
 	verifReach("done")
 }
